@@ -339,7 +339,60 @@ def run_refit(case):
     return res
 
 
-KINDS = {"refit": run_refit, "gmm": run_gmm, "hgm": run_hgm}
+def run_cforms(case):
+    """The same data / sample weights (quantised so that every spelling carries them exactly) as another container, dtype or memory layout:
+    same labels, same mixture, for both models, under the same random tape."""
+    from mc import forms as fm
+    from tempest.cluster import HierarchicalGaussianMixture, GaussianMixture
+
+    res = Res()
+    d, n, layout, sep = case["d"], case["n"], case["layout"], case["sep"]
+    X0, blob = make_data(d, n, layout, sep)
+    X = np.round(X0 * 64) / 64
+    n = len(X)
+    w = np.array([1, 2, 5])[np.arange(n) % 3].astype(float)
+    w[blob == blob.max()] *= 4.0
+
+    def fit(cls, Xv, wv):
+        with OwnedRandom(23 + env.SEED):
+            with np.errstate(all="ignore"):
+                g = GaussianMixture(n_components=2, covariance_type="full", n_init=1) if cls == "gmm" else HierarchicalGaussianMixture(n_init=1, threshold_modifier=0.5, covariance_type="full", normalize=case["normalize"])
+                g.fit(Xv, wv)
+                lab = np.asarray(g.predict(X.copy())).tolist()
+                par = np.asarray(g.weights_, dtype=float) if cls == "gmm" else np.asarray(g.predict_proba(X.copy()), dtype=float)
+                return lab, par
+
+    kinds = ("list", "tuple", "strided", "revstrided", "fortran", "readonly", "f32", "i64", "i32", "longdouble")
+    for cls in ("gmm", "hgm"):
+        try:
+            ref = fit(cls, X.copy(), w.copy())
+        except Exception:
+            res.bump("reference_fit_raises")
+            continue
+        for which, base in (("X", X), ("sample_weight", w)):
+            for kind in kinds:
+                v = fm.form(base, kind)
+                if v is None or (which == "X" and kind in ("i64", "i32")):
+                    continue
+                cc = dict(case, only=[cls, which, kind])
+                if case.get("only") and case["only"] != [cls, which, kind]:
+                    continue
+                try:
+                    got = fit(cls, v if which == "X" else X.copy(), v if which == "sample_weight" else w.copy())
+                except Exception as e:
+                    res.violate(f"cforms:{cls}:{which}:{kind}:raises:{type(e).__name__}", f"{cls}.fit raised {e!r} when {which} is passed as {kind} (d={d}, n={n}, {layout}); fine as float64 arrays", cc)
+                    continue
+                res.evals += 1
+                res.outcome((cls, d, n, layout, sep, which, kind), nontrivial=True)
+                tol = 1e-3 if kind == "f32" else 1e-9
+                if got[0] != ref[0] or not fm.same(got[1], ref[1], rtol=tol, atol=tol):
+                    res.violate(f"cforms:{cls}:{which}:{kind}", f"{cls}.fit with {which} passed as {kind} (d={d}, n={n}, {layout}, sep={sep}) gives labels {got[0][:16]}..., "
+                                f"as float64 arrays {ref[0][:16]}... (same tape)", cc)
+    res.states += 1
+    return res
+
+
+KINDS = {"cforms": run_cforms, "refit": run_refit, "gmm": run_gmm, "hgm": run_hgm}
 
 
 def plan(ctx):
@@ -369,3 +422,5 @@ def plan(ctx):
     rf = [{"kind": "refit", "seq": sq, "normalize": nm, "weights": wn} for sq in seqs for nm in (True, False) for wn in (("uniform", "geom1e-2") if th else ("uniform",))]
     ctx.bounds["refit_sequences"] = len(rf)
     ctx.explore("object-reuse", rf)
+    cf = [{"kind": "cforms", "d": d, "n": n, "layout": lay, "sep": sep, "normalize": nm} for d in (1, 2, 3) for n in (12, 40) for lay, sep in (("2blob", 10), ("3blob", 3), ("1blob", 0), ("dup2", 0)) for nm in (True, False)]
+    ctx.explore("data-and-weight-array-forms", cf)
